@@ -147,6 +147,32 @@ def c04(rep, tier):
     per_routine = bool(fgs) and any(f['name'] == 'marks' for f in fgs[0]['fields'])
     E.check(okm and per_routine, 'popSymbols: unknown mark', 'every mark of the finished routine whose label is unset -> UNKNOWN_MARK; marks live in the per-routine state',
             'a jump to a label that does not exist in the same program body is not rejected', 'Compiler/src/gen.cpp:%d' % pop['loc'][1])
+    # ... and every routine starts with an empty table: pushSymbols() pushes a fresh per-routine state, or resets every field of a reused one
+    psf = m.fn('GenState::pushSymbols') if hasattr(m, 'fn') else None
+    if psf is not None and fgs:
+        fresh = [e for e in walk_all_exprs(psf['body']) if (is_call(e, '::push_back') or is_call(e, '::emplace_back')) and e.get('obj') is not None and
+                 field_chain(e['obj'])[1][-1:] == ['symbols']]
+        if fresh:
+            E.ok('pushSymbols: fresh state', 'a new FunctionGenState is pushed for every routine (its mark table starts empty)', 'Compiler/src/gen.cpp:%d' % psf['loc'][1])
+        else:
+            written = set()
+            for e in walk_all_exprs(psf['body']):
+                tgt = None
+                if e.get('k') == 'assign':
+                    tgt = strip_casts(e['l'])
+                elif e.get('k') == 'call' and e.get('obj') is not None and (e.get('callee') or '').split('::')[-1] in ('clear', 'assign', 'operator=', 'swap'):
+                    tgt = strip_casts(e['obj'])
+                if tgt is not None and tgt.get('k') == 'member' and 'FunctionGenState' in (strip_casts(tgt.get('base') or {}).get('cty') or ''):
+                    written.add(tgt['name'])
+            need = [f_['name'] for f_ in fgs[0]['fields']]
+            missing = [n_ for n_ in need if n_ not in written]
+            if not written:
+                E.unknown('pushSymbols: fresh state', 'neither a push of a new state nor resets of a reused one were found')
+            else:
+                E.check(not missing, 'pushSymbols: fresh state', 'a reused state is reset field by field: %s' % sorted(written),
+                        'pushSymbols() reuses a per-routine state and resets %s but not %s: a routine inherits the %s of the routine that used the slot before - a GOTO to a mark that only '
+                        'an earlier program defines is accepted and lands in that program' % (sorted(written), missing, '/'.join(missing)), 'Compiler/src/gen.cpp:%d' % psf['loc'][1],
+                        witness={'input': 'PROGRAM a IN x DO m: x0 := x END; PROGRAM b IN x DO GOTO m END; x1 := b(1)'} if missing else None)
     # literal range: the NUMBER case converts through the checked conversion
     num_ok = False
     for st in walk_stmts(dv['body']):
